@@ -154,6 +154,20 @@ def replay_daqmx_case(case):
                 fails.append((sig("raised", mode=mode, exception=type(ex).__name__),
                               dict(bundle, channel=nm, exception=traceback.format_exc()[-800:])))
     fl.close()
+    # the same file through a raw stream that returns raw data in short pieces (5 bytes per call)
+    try:
+        from .recstream import ShortReadStream
+        n += 1
+        fs = TdmsFile.read(ShortReadStream(e.data, e.segs[0]["dataPos"], 5))
+        for i, ch in enumerate(cfg["chans"]):
+            want = {s: exp[(i, s)][1] for s in range(len(ch["scalers"]))}
+            got = _scaler_elems(fs["grp"]["c%d" % i].read_data(scaled=False))
+            if got != want:
+                fails.append((sig("scaler-values", mode="eager", path="short-reading raw stream"),
+                              dict(bundle, channel="c%d" % i, expected=want, observed=got)))
+    except Exception as ex:  # noqa
+        fails.append((sig("raised", mode="eager", path="short-reading raw stream", exception=type(ex).__name__),
+                      dict(bundle, exception="%s: %s" % (type(ex).__name__, ex))))
     # truncated final chunk: complete rows only
     cb = rec["chunkBytes"]
     base = e.segs[0]["dataPos"]
